@@ -21,7 +21,7 @@ RULES = {
     "C19": "distinct = sequence of token kinds x option set; non-trivial = a rewritten token or a multi-line / non-ASCII input",
 }
 
-PREFIXES = [None, "", "p", "前缀", "a-b"]
+PREFIXES = [None, "", "p", "前缀", "a-b", "p", "p\"x", "a\\b"]
 SIGNS = [None, None, "S", "pre fix"]
 RATIOS = [750.0, 750.0, 375.0, 10.0, 1.0, 0.5, 7.0]
 
@@ -40,7 +40,7 @@ def gen_opts(r, pid):
     if r.random() < 0.6:
         o["convert_host"] = True
     if r.random() < 0.4:
-        o["host_is"] = r.choice(["comp/x", "h"])
+        o["host_is"] = r.choice(["comp/x", "h", "comp\\a1\\index", "h\"q", "x\ny"])
     return o
 
 
@@ -404,12 +404,54 @@ def judge_case(pid, run, case, res, known):
                     return
                 if e.name is not None and getattr(e, "kind", None) != "import-placeholder":
                     names_here = [n for _, _, n in cands]
-                    if e.name not in names_here and (e.alt_name is None or e.alt_name not in names_here) and not (e.rpx and any(n and same_dim_spelling(n, e.name) for n in names_here)):
+                    ok_name = e.name in names_here if not e.cls else any(n is not None and css_ident_value(n) == e.name for n in names_here)
+                    if not ok_name and not (e.rpx and any(n and same_dim_spelling(n, e.name) for n in names_here)):
                         viol(f"{w} source map: rewritten token {show_tok(o)} should carry the original spelling {e.name!r} as name, has {names_here}", out=res["out"])
                         return
                     run.count("named_entries_checked")
         case["nontrivial"] = case["nontrivial"] or "\n" in text or any(ord(ch) > 127 for ch in text)
         return
+
+
+def css_ident_value(text):
+    """The identifier a CSS spelling denotes (escapes decoded), or None when the text is not one identifier token.
+    The name of a prefixed class must be *a spelling of the source identifier* (the SUT re-serialises it, so
+    `.\\62 tn` may come back as `btn`, but `md:w-1/2` is not a spelling of `md\\:w-1\\/2`)."""
+    out = []
+    i, n = 0, len(text)
+    raw_first = None
+    while i < n:
+        ch = text[i]
+        if ch == "\\":
+            i += 1
+            if i >= n or text[i] in "\n\r\f":
+                return None
+            m = re.match(r"[0-9a-fA-F]{1,6}", text[i:])
+            if m:
+                cp = int(m.group(0), 16)
+                out.append(chr(cp) if 0 < cp <= 0x10FFFF and not (0xD800 <= cp <= 0xDFFF) else "\ufffd")
+                i += len(m.group(0))
+                if i < n and text[i] in " \t\n\r\f":
+                    i += 2 if text[i] == "\r" and i + 1 < n and text[i + 1] == "\n" else 1
+            else:
+                out.append(text[i])
+                i += 1
+            if raw_first is None:
+                raw_first = "esc"
+            continue
+        if not (ch.isalnum() and ch.isascii() or ch in "-_" or ord(ch) >= 0x80):
+            return None
+        if raw_first is None:
+            raw_first = ch
+            if ch.isdigit():
+                return None
+        elif len(out) == 1 and raw_first == "-" and ch.isdigit():
+            return None
+        out.append(ch)
+        i += 1
+    if not out or (out == ["-"] and raw_first == "-"):
+        return None
+    return "".join(out)
 
 
 def same_dim_spelling(a, b):
